@@ -74,6 +74,10 @@ def rule_query(ctx: Ctx, repo: Repo) -> None:
         lab = "with qualname prefix" if with_prefix else "module only"
         if not isinstance(sel, sqlmini.Select):
             raise AnalysisError("make_query does not build a SELECT")
+        if "SELECT" in sel.table.upper() or "(" in sel.table:
+            ctx.violate("R-C09.3", w, f"{lab}: FROM {sel.table[:80]}", "the rows come from a sub-select: filter, de-duplication and LIMIT are no longer applied at one level "
+                        "(a LIMIT inside counts duplicate rows, so fewer than min(n, d) distinct rows can come back)")
+            continue
         ctx.check(sel.n_params == len(vals), "R-C09.6", w, "one bound value per `?` placeholder", construct=f"{lab}: {sel.n_params} placeholders, {len(vals)} values")
         ctx.check(not sel.where_has_or and not sel.having and sel.offset is None, "R-C09.1", w, "the WHERE clause is a plain conjunction (no OR / HAVING / OFFSET)", construct=sql.strip()[:200])
         # map placeholders to values in order
